@@ -186,6 +186,11 @@ func calculateAccountDisplayLength(p *ast.Posting) int {
 	case ast.VirtualBalanced, ast.VirtualUnbalanced:
 		accountLen += 2
 	}
+	// a status mark is written in front of the account ("* ", "! ") and takes part in the line's width
+	switch p.Status {
+	case ast.StatusCleared, ast.StatusPending:
+		accountLen += 2
+	}
 	return accountLen
 }
 
